@@ -62,10 +62,14 @@ def run(tier):
             chk.violation(clause, detail, script={"unitary": what, "matrix": [[repr(complex(x)) for x in row] for row in M]}, sig={"clause": clause, "family": fam})
     # heralded circuits (heralds must be kept; the argument must not change)
     from lightworks import qubit
-    for name, c in (("CNOT_Heralded", qubit.CNOT_Heralded()), ("herald in!=out", None), ("crossing heralds", "x")):
+    for name, c in (("CNOT_Heralded", qubit.CNOT_Heralded()), ("herald in!=out", None), ("crossing heralds", "x"), ("zero-valued loss elements", "z")):
         if c is None:
             c = lw.Circuit(4)
             c.bs(0, 1); c.bs(2, 3); c.ps(1, 0.4); c.bs(1, 2); c.herald(1, 0, 3); c.herald(0, 2)
+        elif c == "z":
+            # lossless, but the component list holds loss elements of value zero (U_full is larger than U)
+            c = lw.Circuit(4)
+            c.bs(0, 1); c.loss(2, 0); c.bs(2, 3, loss=lw.Parameter(0.0)); c.ps(1, 0.4); c.bs(1, 2); c.loss(0, lw.Parameter(0)); c.herald(0, 3, 1)
         elif c == "x":
             c = lw.Circuit(5)
             c.bs(0, 1); c.bs(2, 3); c.ps(1, 0.4); c.bs(1, 2); c.bs(3, 4); c.herald(1, 0, 3); c.herald(0, 2, 1); c.herald(2, 4, 0)
@@ -131,8 +135,11 @@ def run(tier):
         for attr, mk in cfg.items():
             setattr(m, attr, mk())
         return m
-    makers = {"bs_reflectivity": [lambda: dists.TopHat(0.4, 0.6), lambda: dists.Gaussian(0.5, 0.05, min_value=0.35, max_value=0.65), lambda: dists.Constant(0.5)],
-              "loss": [lambda: dists.TopHat(0, 0.2), lambda: dists.Gaussian(0.1, 0.05, min_value=0, max_value=0.2), lambda: dists.Constant(0.0)],
+    # (bounds at half a standard deviation: most draws are rejected and re-drawn)
+    makers = {"bs_reflectivity": [lambda: dists.TopHat(0.4, 0.6), lambda: dists.Gaussian(0.5, 0.05, min_value=0.35, max_value=0.65), lambda: dists.Constant(0.5),
+                                  lambda: dists.Gaussian(0.5, 0.1, min_value=0.45, max_value=0.55)],
+              "loss": [lambda: dists.TopHat(0, 0.2), lambda: dists.Gaussian(0.1, 0.05, min_value=0, max_value=0.2), lambda: dists.Constant(0.0),
+                       lambda: dists.Gaussian(0.1, 0.2, min_value=0.05, max_value=0.15)],
               "phase_offset": [lambda: dists.TopHat(-0.1, 0.1), lambda: dists.Gaussian(0, 0.1, min_value=-0.2, max_value=0.2), lambda: dists.Constant(0.0)]}
     for h in range(6 if th else 3):
         c = lw.Unitary(lw.random_unitary(4, seed=1000 + h))
